@@ -179,7 +179,7 @@ def main(run):
                         ups = [i for i, ev in enumerate(log) if ev[0] == "storage.update"]
                         if kw.get("update_storage", True):
                             others = [i for i, ev in enumerate(log) if ev[0] in ("model", "loss")]
-                            if len(ups) != 1 or log[ups[0]][1] is not x or log[ups[0]][1] != x0 or log[ups[0]][2] != y or (others and ups[0] < max(others)):
+                            if len(ups) != 1 or log[ups[0]][1] != x0 or log[ups[0]][2] != y or (others and ups[0] < max(others)):
                                 bad.append(("storage-update-order", f"storage update events at {ups} of {len(log)} log entries"))
                         elif ups:
                             bad.append(("storage-update-order", "storage updated although update_storage=False"))
